@@ -16,7 +16,7 @@ import (
 
 var kinds = []string{"prep", "start", "stop", "run-worker", "start-worker", "service-worker", "task-queue", "task-schedule",
 	"mt-run-high", "mt-run-medium", "mt-run-low", "mt-start-high", "mt-start-medium", "mt-start-low", "hook"}
-var values = []string{"nil", "error", "string", "index", "nilmap", "struct", "typednil"}
+var values = []string{"nil", "error", "string", "index", "nilmap", "struct", "typednil", "uncomparable"}
 
 func scenarios(c *vlib.Ctx) []*slib.Scn {
 	var out []*slib.Scn
@@ -28,6 +28,19 @@ func scenarios(c *vlib.Ctx) []*slib.Scn {
 		for _, v := range values {
 			add(modules.C06Params{Kind: k, Value: v}, 0)
 		}
+	}
+	// the same item panics twice in a row (the second report follows an identical first one); service workers restart by themselves
+	for _, k := range kinds {
+		if k == "prep" || k == "start" || k == "stop" {
+			continue
+		}
+		for _, v := range []string{"error", "uncomparable", "struct"} {
+			add(modules.C06Params{Kind: k, Value: v, Panics: 2}, 0)
+		}
+	}
+	// a service worker panics, the module is disabled during the back-off and enabled again before any management pass
+	for _, n := range []int{1, 2} {
+		add(modules.C06Params{Kind: "service-worker", Value: "error", Mgmt: true, Panics: n}, 0)
 	}
 	// lifecycle panics with a second module that stops after / starts before the panicking one
 	for _, k := range []string{"prep", "start", "stop"} {
@@ -58,7 +71,7 @@ func scenarios(c *vlib.Ctx) []*slib.Scn {
 
 func main() {
 	vlib.Main("C06", "model_checking", func(c *vlib.Ctx) {
-		c.Rule("complete (execution kind x panic value) table (15 kinds x 7 values) under the default schedule, plus for every kind the panicking item among 1-2 healthy items with all interleavings within the deviation bound, on the source-instrumented modules package; " +
+		c.Rule("complete (execution kind x panic value) table (15 kinds x 8 values, incl. a value of an uncomparable type) under the default schedule, every work kind panicking twice in a row, a service worker whose module is disabled and re-enabled during the back-off, plus for every kind the panicking item among 1-2 healthy items with all interleavings within the deviation bound, on the source-instrumented modules package; " +
 			"distinct_nontrivial = distinct observation traces per scenario; API part: every handler kind x 8 panic values x stage x method x dev mode with follow-up requests and all depth-2 (thorough 3) histories through the real mainHandler.ServeHTTP")
 		c.Assume("sequential consistency; data-race freedom outside the instrumented synchronisation operations; API request handlers are covered by the sequential api part of this check")
 		if c.Replay != "" {
